@@ -43,13 +43,14 @@ def classify(r):
         if "nearnull" in c["classes"]:
             return "dedup|null-entry-equals-value"
         s = c["shape"]
-        return "gen|%s|kind=%s|layout=%s|classes=%s" % (cls, s["kind"], s["layout"], "+".join(sorted(set(c["classes"]))))
+        return "gen|%s|kind=%s|layout=%s|classes=%s|instm=%s|private=%s" % (
+            cls, s["kind"], s["layout"], "+".join(sorted(set(c["classes"]))), s["instm"], s["private"])
     return "corpus|%s|%s" % (cls, r.get("input", "").split("|")[0])
 
 
 def nontrivial(c):
     s = c["shape"]
-    return s["nres"] > 1 or s["unref"] or s["dupcontent"]
+    return s["nres"] > 1 or s["unref"] or s["dupcontent"] or s["private"] != "none"
 
 
 def run(ctx):
